@@ -31,7 +31,7 @@ LEVEL_NOTE = ("unaligned datetime queries: any of floor/ceil rounding of each en
               "content must be the model's and the length at most ceil(span)+1; reference slot = round-half-even")
 RULE = ("seeded histories of 1-40 updates x queries; distinct = canonical history JSON; non-trivial = >=5 accepted "
         "updates and (a gap or an eviction or an out-of-order update occurred)")
-REQUIRED_BUCKETS = ["container:list", "container:numpy", "update-rejected-too-old", "update-out-of-order",
+REQUIRED_BUCKETS = ["moving-window-fed-a-sample-older-than-its-window", "container:list", "container:numpy", "update-rejected-too-old", "update-out-of-order",
                     "jump-beyond-capacity", "off-grid-update", "half-period-tie", "missing-value-written",
                     "gap-split", "eviction", "query-unaligned", "query-same-slot", "fill-value-zero", "query-index-negative",
                     "query-index-out-of-range", "at-index", "at-timestamp", "at-timestamp-unaligned", "at-gap-slot", "at-out-of-range",
@@ -181,6 +181,7 @@ def check(case: dict[str, Any], rec: Any) -> None:
         return r
 
     accepted: list[tuple[float, Any]] = []
+    fed: list[tuple[float, Any, bool]] = []  # every update, with "rejected as older than the window"
     interesting = False
     hist = []
     for n_up, (t, val) in enumerate(case["updates"]):
@@ -237,8 +238,10 @@ def check(case: dict[str, Any], rec: Any) -> None:
             if after != before:
                 rec.violation("rejected-update-changed-state", w0)
                 return
+            fed.append((t, v, True))
             continue
         accepted.append((t, v))
+        fed.append((t, v, False))
         if model.newest is not None and slot < model.newest:
             rec.bucket("update-out-of-order")
             interesting = True
@@ -372,7 +375,7 @@ def check(case: dict[str, Any], rec: Any) -> None:
     rec.observed({"accepted_updates": len(accepted), "final_model": sorted(model.valid.items())[:10],
                   "newest": model.newest})
     if accepted and model.valid:
-        _moving_window(case, accepted, rec, align, per, align_arg, zone)
+        _moving_window(case, fed, rec, align, per, align_arg, zone)
 
 
 def _moving_window(case: dict[str, Any], accepted: list[Any], rec: Any, align: datetime, per: timedelta,
@@ -396,12 +399,16 @@ def _moving_window(case: dict[str, Any], accepted: list[Any], rec: Any, align: d
         model = Model(cap)
         async with MovingWindow(size=per * cap, resampled_data_recv=ch.new_receiver(limit=1000),
                                 input_sampling_period=per, align_to=align_arg or align) as mw:
-            for t, v in accepted:
+            for t, v, too_old in accepted:
                 await tx.send(Sample(_z(align + timedelta(microseconds=round(t * period * 1e6))),
                                      None if v is None else Quantity(v)))
                 await asyncio.sleep(0.001)
                 slot = _slot(F(str(t)))
-                model.write(slot, MISSING if (v is None or v != v) else v)
+                if too_old:
+                    # a sample older than the window: rejected; the window stays what it was and keeps following its input
+                    rec.bucket("moving-window-fed-a-sample-older-than-its-window")
+                else:
+                    model.write(slot, MISSING if (v is None or v != v) else v)
                 valid = model.valid
                 if not valid:
                     continue
